@@ -857,6 +857,8 @@ func dbrpCases() []Case {
 		`SELECT v FROM "rp"."m"`,
 		`SELECT v FROM "db".."m"`,
 		`SELECT v FROM "db"."rp"."m", "other"."rp"."n"`,
+		`SELECT v FROM "db"."rp"."m", "db"."other"."n"`,
+		`SELECT v FROM "db"."rp"."m", "db"."rp"."n", "db"."other"."o"`,
 		`SELECT v FROM "db"."rp"."m", "db2"."rp2"."n"`,
 		`SELECT v FROM (SELECT v FROM "other"."rp"."m")`,
 		`SELECT v FROM (SELECT v FROM "db"."rp"."m")`,
@@ -913,7 +915,7 @@ func caseKey(c Case) string {
 
 func TestCheck(t *testing.T) {
 	r := rep.New("C16", "model_checking",
-		"batch query ranges, schedules and db/rp confinement on the real task: every case defines and starts a real batch task (TaskMaster, QueryNode, tickers) inside a virtual-time bubble with a recording InfluxDB client, lets 3+ ticks pass, then asks ExecutingTask.BatchQueries for the same span. (cond) ALL user WHERE clauses with up to 3 predicates out of 6 (field, tag, regex, now()-relative, absolute lower/upper time bound) joined by AND/OR with every parenthesisation, crossed with groupBy/fill/alignGroup settings: every issued statement is re-parsed and its condition is compared, on a truth table of rows at +-1ns around every boundary, with (user condition AND start<=time<stop); select list, sources, GROUP BY and fill are compared with what was asked. (sched) every in {7s,10s,1m} x align x period x offset x 24 start phases (eighths of the interval, +0/1ns/999999999ns) and 4 cron expressions x 6 phases: live tick instants equal the documented schedule, each query's range is [tick-offset-period, tick-offset), and the historical list equals the live list statement for statement. (dbrp) 22 FROM/INTO/multi-statement shapes and 6 two-query-node tasks x 4 declared db/rp sets: nothing that reaches InfluxDB touches an undeclared db/rp in any clause, and queries confined to declared db/rps are accepted. states = distinct cases, transitions = live queries issued")
+		"batch query ranges, schedules and db/rp confinement on the real task: every case defines and starts a real batch task (TaskMaster, QueryNode, tickers) inside a virtual-time bubble with a recording InfluxDB client, lets 3+ ticks pass, then asks ExecutingTask.BatchQueries for the same span. (cond) ALL user WHERE clauses with up to 3 predicates out of 6 (field, tag, regex, now()-relative, absolute lower/upper time bound) joined by AND/OR with every parenthesisation, crossed with groupBy/fill/alignGroup settings: every issued statement is re-parsed and its condition is compared, on a truth table of rows at +-1ns around every boundary, with (user condition AND start<=time<stop); select list, sources, GROUP BY and fill are compared with what was asked. (sched) every in {7s,10s,1m} x align x period x offset x 24 start phases (eighths of the interval, +0/1ns/999999999ns) and 4 cron expressions x 6 phases: live tick instants equal the documented schedule, each query's range is [tick-offset-period, tick-offset), and the historical list equals the live list statement for statement. (dbrp) 24 FROM/INTO/multi-statement shapes and 6 two-query-node tasks x 4 declared db/rp sets: nothing that reaches InfluxDB touches an undeclared db/rp in any clause, and queries confined to declared db/rps are accepted. states = distinct cases, transitions = live queries issued")
 	defer r.Write()
 	r.Assumption("InfluxDB answers instantly and with an empty result; slow queries that make the ticker drop ticks are out of scope")
 	r.Assumption("alignGroup together with an explicit time(d, offset) is not judged (the documentation does not fix the result)")
